@@ -57,6 +57,9 @@ type FieldKind struct {
 	Embedded bool
 	EmbName  string // field name when embedded (the type name)
 	Vals     []Val  // Vals[0] is the Go zero value
+	// Extra kinds are used in one-field types only (AllKinds leaves them out):
+	// kinds of value no plan builder has a branch of its own for.
+	Extra bool
 }
 
 // TagClass is one member of the tag alphabet; %d is replaced by the position.
@@ -173,6 +176,15 @@ func buildKinds() []FieldKind {
 	emb("embed", "embed", "EmbA", EmbA{}, Val{"nonzero", rv(EmbA{Ea: 1, Eb: "e", Ef: 0.1234567890123, Eh: true})})
 	emb("embedT", "embed", "EmbT", EmbT{}, Val{"nonzero", func() reflect.Value { i := 5; return reflect.ValueOf(EmbT{Ec: 2, Ed: "d", Ee: &i}) }})
 	emb("embedptr", "embedptr", "EmbA", (*EmbA)(nil), Val{"ptrzero", func() reflect.Value { return reflect.ValueOf(&EmbA{}) }}, Val{"nonzero", func() reflect.Value { return reflect.ValueOf(&EmbA{Ea: 1, Eb: "e", Ef: 0.1234567890123, Eh: true}) }})
+	// extra kinds (one-field types only)
+	extra := func(name, class string, sample any, vals ...Val) {
+		add(name, class, sample, vals...)
+		ks[len(ks)-1].Extra = true
+	}
+	extra("map[int]int", "intkeymap", map[int]int(nil),
+		Val{"nonzero", func() reflect.Value { return reflect.ValueOf(map[int]int{7: 1}) }})
+	extra("map[string]string", "stringmap", map[string]string(nil),
+		Val{"nonzero", func() reflect.Value { return reflect.ValueOf(map[string]string{"e": "", "k": "v"}) }})
 	return ks
 }
 
@@ -214,12 +226,30 @@ func FieldAlphabet(kinds []int) []FieldSpec {
 
 // AllKinds returns the indexes of every kind.
 func AllKinds() []int {
-	out := make([]int, len(Kinds))
-	for i := range out {
-		out[i] = i
+	var out []int
+	for i, k := range Kinds {
+		if !k.Extra {
+			out = append(out, i)
+		}
 	}
 	return out
 }
+
+// ExtraKinds lists the kinds used in one-field types only.
+func ExtraKinds() []int {
+	var out []int
+	for i, k := range Kinds {
+		if k.Extra {
+			out = append(out, i)
+		}
+	}
+	return out
+}
+
+// (Named basic types as field types were tried here and taken out again: on the
+// unchanged tree every encoder fails on them when the struct is passed by value
+// (defects/C15-1), in fourteen signatures that all end in the kind of the field,
+// which the prefix form of a listed finding cannot name.)
 
 // ThinKinds is one kind per plan-builder branch (used for 3-field types).
 func ThinKinds() []int {
